@@ -255,16 +255,38 @@ pub fn run_c09(cx: &Cx) -> PropResult {
             acc.bump("compiled_declarations_with_deduplicated_strings", 1);
         }
         let strat = dedup_case_strategy();
-        drive(tag_seed(derive_seed(cx.seed, cx.prop, shard as u64, 0), 0), &strat, per_shard, acc, &|c: &DedupCase| to_json(c), &mut |c, a, r| check_c09(c, a, r));
+        if drive(tag_seed(derive_seed(cx.seed, cx.prop, shard as u64, 0), 0), &strat, per_shard, acc, &|c: &DedupCase| to_json(c), &mut |c, a, r| check_c09(c, a, r)) {
+            return;
+        }
+        // the string table next to the other per-stream table: graphs of tracked objects whose bodies carry one of four
+        // deduplicated tags (C10's codec and byte model): string ids stay 1, 2, 3 ... whatever objects are numbered
+        let strat = (1usize..25)
+            .prop_flat_map(|n| (proptest::collection::vec(any::<u32>(), n..=n), proptest::collection::vec(proptest::collection::vec(0..n, 0..3), n..=n), any::<bool>(), any::<u16>(), any::<u8>()))
+            .prop_map(|(labels, edges, th, fault_sel, fault_kind)| crate::props::graphs::GraphCase { g: crate::props::graphs::Graph { labels, edges }, tracked_header: th, tagged: true, sentinel: false, fault_sel, fault_kind });
+        drive(tag_seed(derive_seed(cx.seed, cx.prop, shard as u64, 5), 5), &strat, per_shard / 20, acc, &|c: &crate::props::graphs::GraphCase| to_json(&json!({"Graph": c})), &mut |c, a, r| {
+            match crate::props::graphs::check_graph(c, &mut Acc::new(), false) {
+                Verdict::Fail(e) => Verdict::Fail(format!("deduplicated strings beside tracked objects: {e}")),
+                v => {
+                    if r {
+                        a.case("tagged graph (string ids beside object numbers)", hash_json(c), c.g.labels.len() >= 4);
+                    }
+                    v
+                }
+            }
+        });
     });
     PropResult::new(
         acc,
         "exploration",
-        "cases = write sequences over a six-string alphabet (empty, ASCII, non-ASCII, long, one equal to a removed field's name): (i) flat streams of 0-40 (dedup | plain | time-zone) writes into one SerializationContext (zone names also occur as deduplicated and as plain strings); (ii) tuples, Vec<DS>, Option/Result/LinkedList of DS; (iii) DS fields of version-0 records; (iv) DS fields of evolved records whose header carries 1-2 removed/transient names, nested in each other and repeated in a Vec so that the second instance's header names are back-references; plus run-time generated declarations with DS fields, and every declaration of the compiled batch (real derive-macro code) that contains a DS anywhere inside; 1-3 values back to back. Oracles: decode == strings written; stream byte-identical to the model (ids from 1 in first-occurrence order, header names before field strings, every repeat exactly zigzag_varint(-id), first occurrences as plain strings); flat streams without repeats identical to the all-plain stream; a rewritten back-reference to an id never introduced (introduced+1, i32::MIN, introduced+1000) decodes to Err(InvalidStringId); so does a forward reference (the first header name of a top-level evolved record rewritten as a back-reference to the id it would get). Same definition on both sides. Non-trivial = at least one repeat and a first occurrence after a repeat.",
+        "cases = write sequences over a six-string alphabet (empty, ASCII, non-ASCII, long, one equal to a removed field's name): (i) flat streams of 0-40 (dedup | plain | time-zone) writes into one SerializationContext (zone names also occur as deduplicated and as plain strings); (ii) tuples, Vec<DS>, Option/Result/LinkedList of DS; (iii) DS fields of version-0 records; (iv) DS fields of evolved records whose header carries 1-2 removed/transient names, nested in each other and repeated in a Vec so that the second instance's header names are back-references; plus run-time generated declarations with DS fields, and every declaration of the compiled batch (real derive-macro code) that contains a DS anywhere inside; 1-3 values back to back. Oracles: decode == strings written; stream byte-identical to the model (ids from 1 in first-occurrence order, header names before field strings, every repeat exactly zigzag_varint(-id), first occurrences as plain strings); flat streams without repeats identical to the all-plain stream; a rewritten back-reference to an id never introduced (introduced+1, i32::MIN, introduced+1000) decodes to Err(InvalidStringId); so does a forward reference (the first header name of a top-level evolved record rewritten as a back-reference to the id it would get). Also graphs of tracked objects whose bodies carry deduplicated tags (the codec and byte model of C10): string ids are 1, 2, 3 ... in first-occurrence order whatever numbers the objects take. Same definition on both sides. Non-trivial = at least one repeat and a first occurrence after a repeat.",
     )
 }
 
 pub fn replay_c09(case: &Value) -> Verdict {
+    if let Some(g) = case.get("Graph") {
+        let c: crate::props::graphs::GraphCase = serde_json::from_value(g.clone()).expect("replay case");
+        return crate::props::graphs::check_graph(&c, &mut Acc::new(), false);
+    }
     let c: DedupCase = serde_json::from_value(case.clone()).expect("replay case");
     check_c09(&c, &mut Acc::new(), false)
 }
